@@ -85,10 +85,24 @@ impl StyledCase {
             let k = (a.len() + 1) / 2;
             d.style = Some(sheet_to_css(&a[..k].to_vec(), &self.variant));
             d.style2 = Some(sheet_to_css(&a[k..].to_vec(), &self.variant));
+            if self.variant.repeat {
+                d.style3 = d.style.clone();
+            }
         } else {
             d.style = Some(if a.is_empty() { String::new() } else { sheet_to_css(a, &self.variant) });
         }
         d.to_html()
+    }
+    /// The styling as the cascade sees it: with `repeat` the first half of the author sheet occurs
+    /// again after the second half.
+    pub fn effective_styling(&self) -> Styling {
+        let mut st = self.styling.clone();
+        let a = &self.styling.author;
+        if self.variant.split && self.variant.repeat && a.len() >= 2 {
+            let k = (a.len() + 1) / 2;
+            st.author.extend(a[..k].iter().cloned());
+        }
+        st
     }
     pub fn cfg(&self) -> CfgSpec {
         let mut c = CfgSpec::rich();
